@@ -90,15 +90,19 @@ func installDefaultExterns(ex *Exec) {
 // nothing). Harnesses use it for output primitives and observation points.
 func (ex *Exec) Sink(name string) {
 	ex.Externs[name] = func(ex *Exec, st *State, in *llread.Inst, a []Val) []*State {
-		st.Events = append(st.Events, Event{Name: name, Args: append([]Val(nil), a...)})
+		ev := Event{Name: name, Args: append([]Val(nil), a...)}
 		switch in.Type.Kind {
 		case llread.TInt:
-			ex.SetResult(st, in, Val{E: ex.C.Fresh("ret_"+name, smt.BVSort(in.Type.Bits))})
+			ev.Ret = Val{E: ex.C.Fresh("ret_"+name, smt.BVSort(in.Type.Bits))}
 		case llread.TDouble:
-			ex.SetResult(st, in, Val{E: ex.C.Fresh("ret_"+name, smt.FP)})
+			ev.Ret = Val{E: ex.C.Fresh("ret_"+name, smt.FP)}
 		case llread.TPtr:
-			ex.SetResult(st, in, Val{E: ex.C.BV(64, 0)})
+			ev.Ret = Val{E: ex.C.BV(64, 0)}
 		}
+		if ev.Ret.E != nil {
+			ex.SetResult(st, in, ev.Ret)
+		}
+		st.Events = append(st.Events, ev)
 		return []*State{st}
 	}
 }
